@@ -11,6 +11,7 @@ import StathamModel.Good
 import StathamModel.SerJson
 import StathamModel.Orderer
 import StathamModel.Py.Repr
+import StathamModel.Py.EvalTree
 import StathamModel.Format
 import StathamModel.Inherit
 import StathamModel.Py.Module
@@ -158,7 +159,7 @@ def handle (req : Json) : R Json := do
     | .error _ => pure (Json.mkObj [("r", "unresolvable")])
   | "repr" => do
     let el ← decElem (← req.getObjVal? "elem")
-    pure (Json.mkObj [("expr", encExpr (reprExpr el))])
+    pure (Json.mkObj [("expr", encExpr (reprExpr el)), ("evalBack", Json.bool (evalBack el))])
   | "repr_property" => do
     let key ← decKey (← req.getObjVal? "key")
     let el ← decElem (← req.getObjVal? "elem")
